@@ -3,7 +3,7 @@
 From Coq Require Import List NArith Bool.
 From SV Require Import Reconciler.Retries Reconciler.Model Reconciler.RetriesProofs Reconciler.CommitProofs
   Reconciler.RoundProofs Reconciler.CoverProofs Reconciler.StepProofs Reconciler.Refuted
-  Reconciler.TableWf Reconciler.StreamProofs Reconciler.PhaseProofs Reconciler.RoundInv Reconciler.Runs.
+  Reconciler.TableWf Reconciler.StreamProofs Reconciler.PhaseProofs Reconciler.BatchProofs Reconciler.RoundInv Reconciler.Runs Reconciler.Progress.
 Import ListNotations.
 Open Scope N_scope.
 
@@ -70,22 +70,8 @@ Theorem C14_retry_commits_over_foreign_write : forall fixed now t q r t' q' cur 
 Proof. exact retry_commits_over_foreign_write. Qed.
 Print Assumptions C14_retry_commits_over_foreign_write.
 
-(* nothing_forgotten — FULL STATEMENT (not proved as one theorem):
-     forall cf e s (any env: any faults, hooks, time), keyed (e_tab e) -> k_cursor s <= t_rev (e_tab e) ->
-       uniq (k_ret s) -> (forall pk, covered Dlog (e_tab e) (k_cursor s) [] (k_ret s) pk) ->
-       let (e', s') := round cf e s in
-       forall pk, covered Dlog' (e_tab e') (k_cursor s') [] (k_ret s') pk
-   where Dlog pk rev := the call log contains a successful Delete of pk at revision rev.
-   Proved pieces: C14_commit_keeps_cover (both commitStatus calls of a round),
-   C14_user_write_keeps_cover + C14_inflight_writes_keep_cover (writes placed anywhere, incl. from inside
-   operations), C14_retry_step_keeps_cover (processRetries step on an update item).
-   Missing: the phase lemma "single/batch advances the cursor only over keys it puts into results /
-   deletes / queues", which needs the snapshot-vs-current-table relation (objects with revision <= snapshot
-   revision are unchanged) threaded through do_call's hooks; the processRetries step on a DELETE item
-   (needs the ghost D extended by the successful Delete); and bounded convergence (`converges`): once faults and writes stop,
-   after ceil(pending/roundSize) + |items| + 2 rounds past the largest retryAt every live object is Done
-   with target = table. Both are exercised by the correspondence run (P:C14 `final` lines, exact equality
-   with the model) and by the independent oracle !BAD:C14:*. *)
+(* (historic partial form, kept: the two status commits of a round compose; the full statement is now
+   C14_round_keeps_cover / C14_nothing_forgotten below) *)
 Theorem C14_nothing_forgotten_partial : forall D c now res1 res2 t q t1 q1 t2 q2,
   keyed t -> uniq q -> NoDup (map (fun r => o_pk (r_obj r)) res1) ->
   (forall r, In r res1 -> r_orig r <= t_rev t) ->
@@ -109,15 +95,15 @@ Theorem C14_foreign_status_write_converges : run_stuck true = ([(1, 1, kind_code
 Proof. exact converges_after_foreign_status_write_fixed. Qed.
 Print Assumptions C14_foreign_status_write_converges.
 
-(* ------------------------------------------------------------------ whole rounds and runs (single mode) *)
+(* ------------------------------------------------------------------ whole rounds and runs (single AND batch mode) *)
 (* round_inv e s (RoundInv.v): the table is well-formed (unique keys, positive distinct revisions bounded
    by the table revision), the retry queue has one item per key with revisions from the past, the cursor
    is not beyond the table revision, and EVERY key is covered w.r.t. Dlog e (successful Deletes in the
-   call log). One whole round of a single-mode reconciler — change stream over the snapshot with any round
+   call log). One whole round of the reconciler, single or batch mode — change stream over the snapshot with any round
    size, any outcome of every operation (fault oracle), any user writes performed from inside any
    operation (hooks: between snapshot and commit), both status commits, the retry phase on update AND
    delete items, prune — preserves it. *)
-Theorem C14_round_keeps_cover : forall cf e s e' s', cf_batch cf = false ->
+Theorem C14_round_keeps_cover : forall cf e s e' s',
   round_inv e s -> round cf e s = (e', s') -> round_inv e' s' /\ k_cursor s <= k_cursor s'.
 Proof. exact round_keeps_inv. Qed.
 Print Assumptions C14_round_keeps_cover.
@@ -125,7 +111,7 @@ Print Assumptions C14_round_keeps_cover.
 (* nothing_forgotten, lifted to runs: every state reachable from the initial state by rounds, user writes
    of every kind, fault/hook registrations, time steps, prune requests and initializer completion satisfies
    the invariant (full_inv = round_inv + progress revision <= cursor + every queued delete retry was called) *)
-Theorem C14_nothing_forgotten : forall cf st, cf_batch cf = false -> reach cf st -> full_inv (fst st) (snd st).
+Theorem C14_nothing_forgotten : forall cf st, reach cf st -> full_inv (fst st) (snd st).
 Proof. exact nothing_forgotten. Qed.
 Print Assumptions C14_nothing_forgotten.
 
@@ -141,13 +127,20 @@ Print Assumptions C14_quiescent_is_reconciled.
    (#pending or deleted changes ahead of the cursor) + (#retry items) by min(roundSize, that number), and
    one more round skips the Done objects the commits wrote, so quiescence is reached after
    ceil(pending / roundSize) + |items| + 2 rounds; (2) target = table (the last successful operation per
-   key), which needs a ghost linking Done statuses to e_target; (3) batch mode (cf_batch = true): the
-   phase lemma is proved for incremental.go `single` only. All three are covered on every check by the
+   key), which needs a ghost linking Done statuses to e_target. Both are covered on every check by the
    exact correspondence of the `final` line (P:C14) and the !BAD:C14 oracles. *)
-Theorem C14_converges_partial : forall cf st, cf_batch cf = false -> reach cf st ->
+Theorem C14_converges_partial : forall cf st, reach cf st ->
   quiescent (fst st) (snd st) -> reconciled (fst st).
 Proof. exact converges_partial. Qed.
 Print Assumptions C14_converges_partial.
+
+(* progress, first half: once the fault oracle only answers ok, a round (either mode, hooks may still
+   write) never queues a retry — every key with a retry item after the round had one before — so the retry
+   queue only drains. (Second half, not proved: the count of changes processed per round.) *)
+Theorem C14_faults_off_no_new_retries : forall cf e s e' s', e_foff e = true -> round cf e s = (e', s') ->
+  e_foff e' = true /\ qsub (k_ret s') (k_ret s).
+Proof. exact faults_off_no_new_retries. Qed.
+Print Assumptions C14_faults_off_no_new_retries.
 
 Example C14_nonvacuous :
   forall pk, covered (fun _ _ => False) (t_insert (t_empty false) (mkObj 1 1 Pending 1)) 0 [] (r_new 10 40) pk.
